@@ -173,6 +173,17 @@ def read_tree(root):
     return out
 
 
+def tree_modes(root):
+    """relative path -> permission bits, for every directory and regular file under root (root itself excluded)"""
+    out = {}
+    root = str(root)
+    for dp, dns, fns in os.walk(root):
+        for n in dns + fns:
+            p = os.path.join(dp, n)
+            out[os.path.relpath(p, root)] = oct(os.lstat(p).st_mode & 0o7777)
+    return out
+
+
 def restored_rel(abs_source_path):
     """where restore puts a file recorded under an absolute path, relative to the target directory"""
     return os.path.join(*Path(abs_source_path).parts[1:])
